@@ -39,6 +39,9 @@ type c16 struct {
 	n     int
 	base  int // goroutines of the idle test process (histories run one after the other)
 	cnt   map[string]*atomic.Int64
+	grace time.Duration // how long a call may stay unreturned (environment kept going) before it is recorded as hung
+	hung  bool          // a hang was recorded: recording stops (the stuck goroutines cannot be joined)
+	path  string
 }
 
 func (c *c16) ev(m kit.M) { c.tr.Emit(m) }
@@ -47,7 +50,7 @@ func (c *c16) count(name string) {
 }
 
 var c16Counters = []string{"hist_per", "hist_bulk", "hist_chunk", "hist_handover", "adds", "waits", "flushes", "ticks", "jumps",
-	"flusher_starts", "flusher_stops", "takes_nonempty", "execs"}
+	"flusher_starts", "flusher_stops", "takes_nonempty", "execs", "hist_quitrace", "hangs"}
 
 func c16infra(format string, a ...any) {
 	// harness trouble is never a verdict: dump and leave with a code the check maps to exit 2
@@ -96,7 +99,131 @@ type c16hist struct {
 	tickers []*c16ticker
 	ids     atomic.Int64
 	base    int
-	hand    bool // tickers are hand-driven
+	hand    bool            // tickers are hand-driven
+	calls   map[int]c16call // public calls that have not returned yet, per caller (guarded by mu)
+	added   []int           // tasks handed to Add (guarded by mu)
+	execd   map[int]bool    // tasks whose execution has returned (guarded by mu)
+	t0      time.Time
+}
+
+type c16call struct {
+	op string
+	t  int
+}
+
+// call wraps one public call: inv event, bookkeeping of unreturned calls, the call, ret event.
+func (h *c16hist) call(p int, op string, t, size int, fn func()) {
+	h.mu.Lock()
+	h.calls[p] = c16call{op, t}
+	if op == "add" {
+		h.added = append(h.added, t)
+	}
+	h.mu.Unlock()
+	switch op {
+	case "add":
+		h.c.ev(kit.M{"e": "ainv", "p": p, "t": t, "s": size})
+	case "wait":
+		h.c.ev(kit.M{"e": "winv", "p": p})
+	case "flush":
+		h.c.ev(kit.M{"e": "finv", "p": p})
+	}
+	fn()
+	h.mu.Lock()
+	delete(h.calls, p)
+	frozen := h.c.hung
+	h.mu.Unlock()
+	if frozen {
+		return // the history was closed with a `hang` event; late returns are not part of it
+	}
+	switch op {
+	case "add":
+		h.c.ev(kit.M{"e": "aret", "p": p})
+		h.c.count("adds")
+	case "wait":
+		h.c.ev(kit.M{"e": "wret", "p": p})
+		h.c.count("waits")
+	case "flush":
+		h.c.ev(kit.M{"e": "fret", "p": p})
+		h.c.count("flushes")
+	}
+}
+
+// pace keeps the environment from flooding the trace while a history lasts unusually long
+// (callers stuck, grace period running): after 200 ms it acts every 10 ms only.
+func (h *c16hist) pace() {
+	if time.Since(h.t0) > 200*time.Millisecond {
+		time.Sleep(10 * time.Millisecond)
+	}
+}
+
+func (h *c16hist) noteExec(b []int) {
+	h.mu.Lock()
+	for _, t := range b {
+		h.execd[t] = true
+	}
+	h.mu.Unlock()
+}
+
+// await waits for done.  A call of the executor that does not return is not a harness
+// problem: spec/PeriodicalImpl.tla is deadlock free and always has a flusher alive while work
+// is pending, and the statement promises that every task is executed and Wait returns.  So
+// the environment is kept going (ticks and clock jumps) for a generous grace period - a slow
+// machine must not be misjudged - and then the history is closed with a `hang` event that
+// no behaviour of the specification explains.  Returns false if it recorded a hang.
+func (h *c16hist) await(done <-chan struct{}, drive bool) bool {
+	deadline := time.Now().Add(h.c.grace)
+	quiet := time.Now().Add(100 * time.Millisecond)
+	for {
+		select {
+		case <-done:
+			return true
+		case <-time.After(time.Millisecond):
+		}
+		if time.Now().After(deadline) {
+			break
+		}
+		if drive && time.Now().After(quiet) {
+			time.Sleep(10 * time.Millisecond)
+			h.jump()
+			if h.hand {
+				h.tick()
+			}
+		}
+	}
+	h.hang()
+	return false
+}
+
+func (h *c16hist) hang() {
+	h.mu.Lock()
+	h.c.hung = true
+	calls := []kit.M{}
+	op := ""
+	rank := map[string]int{"add": 3, "wait": 2, "flush": 1}
+	for p := 0; p < 16; p++ {
+		if cl, ok := h.calls[p]; ok {
+			calls = append(calls, kit.M{"p": p, "op": cl.op, "t": cl.t})
+			if rank[cl.op] > rank[op] {
+				op = cl.op
+			}
+		}
+	}
+	unexec := []int{}
+	for _, t := range h.added {
+		if !h.execd[t] {
+			unexec = append(unexec, t)
+		}
+	}
+	h.mu.Unlock()
+	stacks := h.c.path + ".hang.txt"
+	_ = os.WriteFile(stacks, []byte(kit.Stacks()), 0o644)
+	if op == "" {
+		op = "none"
+	}
+	h.c.ev(kit.M{"e": "hang", "op": op, "calls": calls, "unexecuted": unexec, "stacks": stacks,
+		"grace_ms": int(h.c.grace / time.Millisecond)})
+	h.c.count("hangs")
+	h.c.n++
 }
 
 func (h *c16hist) newTicker(time.Duration) timex.Ticker {
@@ -124,19 +251,21 @@ func (h *c16hist) live() *c16ticker {
 
 // tick offers one tick to the live flusher; returns once the flusher's select has taken it
 // (or the flusher retired meanwhile).
-func (h *c16hist) tick() {
+func (h *c16hist) tick() bool {
 	t := h.live()
 	if t == nil {
-		return
+		return false
 	}
 	select {
 	case t.ch <- time.Time{}:
 		h.c.ev(kit.M{"e": "tick", "n": t.n})
 		h.c.count("ticks")
+		return true
 	case <-t.stopped:
-	case <-time.After(15 * time.Second):
-		c16infra("tick not accepted by the flusher")
+	case <-time.After(3 * time.Second):
+		// a flusher that is busy or stuck: whoever depends on it will show up as a hung call
 	}
+	return false
 }
 
 func (h *c16hist) jump() {
@@ -172,7 +301,7 @@ func (h *c16hist) retire() {
 }
 
 // run starts g callers (process ids 1..g) released together, plus the environment goroutine.
-func (h *c16hist) run(g int, body func(p int, r *rand.Rand), env func(r *rand.Rand, stop <-chan struct{})) {
+func (h *c16hist) run(g int, body func(p int, r *rand.Rand), env func(r *rand.Rand, stop <-chan struct{})) bool {
 	var wg sync.WaitGroup
 	start := make(chan struct{})
 	for p := 1; p <= g; p++ {
@@ -198,17 +327,14 @@ func (h *c16hist) run(g int, body func(p int, r *rand.Rand), env func(r *rand.Ra
 	close(start)
 	done := make(chan struct{})
 	go func() { wg.Wait(); close(done) }()
-	select {
-	case <-done:
-	case <-time.After(30 * time.Second):
-		c16infra("scenario hung")
-	}
+	ok := h.await(done, env == nil) // the environment goroutine keeps ticking / jumping meanwhile
 	close(stop)
 	select {
 	case <-envDone:
 	case <-time.After(30 * time.Second):
 		c16infra("environment goroutine hung")
 	}
+	return ok
 }
 
 func (h *c16hist) env(r *rand.Rand, stop <-chan struct{}) {
@@ -218,6 +344,7 @@ func (h *c16hist) env(r *rand.Rand, stop <-chan struct{}) {
 			return
 		default:
 		}
+		h.pace()
 		switch r.Intn(6) {
 		case 0, 1, 2:
 			h.tick()
@@ -253,6 +380,7 @@ func c16ids(ts []any) []int {
 
 type c16container struct {
 	c      *c16
+	h      *c16hist
 	tasks  []any
 	thr    int           // AddTask asks for a flush when len(tasks) >= thr (0: never)
 	onTake func(b []int) // directed scenarios: called under pe.lock after logging
@@ -300,10 +428,11 @@ func (rc *c16container) Execute(tasks any) {
 		}
 	}
 	rc.c.ev(kit.M{"e": "xe", "b": b})
+	rc.h.noteExec(b)
 }
 
 func (c *c16) newHist() *c16hist {
-	return &c16hist{c: c, base: c.base, hand: true}
+	return &c16hist{c: c, base: c.base, hand: true, calls: map[int]c16call{}, execd: map[int]bool{}, t0: time.Now()}
 }
 
 // periodical: randomized stress of the PeriodicalExecutor with the recording container.
@@ -312,45 +441,69 @@ func (c *c16) periodical() {
 	c.ev(kit.M{"e": "reset", "kind": "per", "max": thr, "sc": "stress"})
 	c.count("hist_per")
 	h := c.newHist()
-	rc := &c16container{c: c, thr: thr, r: rand.New(rand.NewSource(c.rng.Int63()))}
+	rc := &c16container{c: c, h: h, thr: thr, r: rand.New(rand.NewSource(c.rng.Int63()))}
 	h.pe = NewPeriodicalExecutor(c16Interval, rc)
 	h.pe.newTicker = h.newTicker
 	g := 2 + c.rng.Intn(3)
 	nops := 3 + c.rng.Intn(5)
-	h.run(g, func(p int, r *rand.Rand) {
+	ok := h.run(g, func(p int, r *rand.Rand) {
 		for i := 0; i < nops; i++ {
 			c16jitter(r)
 			switch k := r.Intn(20); {
 			case k < 13:
 				t := c16task{p: p, id: int(h.ids.Add(1)), size: 1}
-				c.ev(kit.M{"e": "ainv", "p": p, "t": t.id, "s": 1})
-				h.pe.Add(t)
-				c.ev(kit.M{"e": "aret", "p": p})
-				c.count("adds")
+				h.call(p, "add", t.id, 1, func() { h.pe.Add(t) })
 			case k < 17:
-				c.ev(kit.M{"e": "winv", "p": p})
-				h.pe.Wait()
-				c.ev(kit.M{"e": "wret", "p": p})
-				c.count("waits")
+				h.call(p, "wait", 0, 0, h.pe.Wait)
 			default:
-				c.ev(kit.M{"e": "finv", "p": p})
-				h.pe.Flush()
-				c.ev(kit.M{"e": "fret", "p": p})
-				c.count("flushes")
+				h.call(p, "flush", 0, 0, func() { h.pe.Flush() })
 			}
 		}
 	}, h.env)
-	c.finish(h, func() { h.pe.Wait() })
+	if ok {
+		c.finish(h, h.pe.Wait)
+	}
 }
 
 // finish: final Wait by the main goroutine (p = 0), flusher retired, goroutines joined.
 func (c *c16) finish(h *c16hist, wait func()) {
-	c.ev(kit.M{"e": "winv", "p": 0})
-	wait()
-	c.ev(kit.M{"e": "wret", "p": 0})
+	done := make(chan struct{})
+	go func() {
+		h.call(0, "wait", 0, 0, wait)
+		close(done)
+	}()
+	if !h.await(done, true) {
+		return
+	}
 	h.retire()
 	c.ev(kit.M{"e": "quiesce"})
 	c.n++
+}
+
+// step runs one part of a directed scenario in its own goroutine and waits for it; a call
+// that does not return ends the history with a `hang` event (see await).
+func (h *c16hist) step(fn func()) bool {
+	done := make(chan struct{})
+	go func() { fn(); close(done) }()
+	return h.await(done, true)
+}
+
+// soon waits for a signal of a directed scenario for a short while.  Best effort only: when
+// the implementation takes another path the scenario simply does not hit its window.
+func c16soon(ch <-chan struct{}, d time.Duration) bool {
+	select {
+	case <-ch:
+		return true
+	case <-time.After(d):
+		return false
+	}
+}
+
+func c16settle() {
+	for i := 0; i < 50; i++ {
+		runtime.Gosched()
+	}
+	time.Sleep(time.Millisecond)
 }
 
 // handover: the hand-over window that TLC singles out in spec/PeriodicalImpl.tla, steered
@@ -364,86 +517,139 @@ func (c *c16) handover() {
 	h := c.newHist()
 	gateA := make(chan struct{})
 	firstRunning := make(chan struct{})
-	taken := make(chan []int, 16)
+	took2 := make(chan struct{}, 64)
+	took0 := make(chan struct{}, 64)
 	waitReturned := make(chan struct{})
-	rc := &c16container{c: c, thr: 2, r: rand.New(rand.NewSource(1))}
-	rc.onTake = func(b []int) { taken <- b }
+	rc := &c16container{c: c, h: h, thr: 2, r: rand.New(rand.NewSource(1))}
+	rc.onTake = func(b []int) { // under pe.lock: never block here
+		ch := took0
+		if len(b) == 2 {
+			ch = took2
+		}
+		select {
+		case ch <- struct{}{}:
+		default:
+		}
+	}
 	rc.onExec = func(b []int) {
 		switch b[0] {
 		case 1:
 			close(firstRunning)
 			<-gateA
 		case 3:
-			select {
-			case <-waitReturned:
-			case <-time.After(150 * time.Millisecond):
-			}
+			c16soon(waitReturned, 150*time.Millisecond)
 		}
 	}
 	h.pe = NewPeriodicalExecutor(c16Interval, rc)
 	h.pe.newTicker = h.newTicker
 	add := func(p, id int) {
-		c.ev(kit.M{"e": "ainv", "p": p, "t": id, "s": 1})
-		h.pe.Add(c16task{p: p, id: id, size: 1})
-		c.ev(kit.M{"e": "aret", "p": p})
-		c.count("adds")
+		h.call(p, "add", id, 1, func() { h.pe.Add(c16task{p: p, id: id, size: 1}) })
 	}
-	expectTake := func(n int) {
-		for {
-			select {
-			case b := <-taken:
-				if len(b) == n {
-					return
-				}
-			case <-time.After(15 * time.Second):
-				c16infra("handover: expected take of %d tasks not seen", n)
-			}
-		}
+	// threshold: [1 2] goes to the flusher, whose Execute is held at gateA
+	if !h.step(func() { add(1, 1); add(1, 2) }) {
+		return
 	}
-	add(1, 1)
-	add(1, 2) // threshold: [1 2] goes to the flusher, whose Execute is held at gateA
-	select {
-	case <-firstRunning:
-	case <-time.After(15 * time.Second):
-		c16infra("handover: first batch never executed")
+	c16soon(firstRunning, 5*time.Second)
+	if !h.step(func() { add(2, 3) }) {
+		return
 	}
-	add(2, 3)
 	var wg sync.WaitGroup
 	wg.Add(2)
 	go func() { // caller 3: threshold Add takes [3 4] and waits for the busy flusher
 		defer wg.Done()
 		add(3, 4)
 	}()
-	expectTake(2)
-	expectTake(2)
-	go func() { // caller 2: its task 3 was added before this Wait
+	c16soon(took2, 5*time.Second) // [1 2]
+	c16soon(took2, 5*time.Second) // [3 4]
+	go func() {                   // caller 2: its task 3 was added before this Wait
 		defer wg.Done()
-		c.ev(kit.M{"e": "winv", "p": 2})
-		h.pe.Wait()
-		c.ev(kit.M{"e": "wret", "p": 2})
-		c.count("waits")
+		h.call(2, "wait", 0, 0, h.pe.Wait)
 		close(waitReturned)
 	}()
-	// best effort only: Wait's own Flush (if the implementation flushes there) found the
-	// container empty; then give Wait a moment to reach waitGroup.Wait
-	select {
-	case <-taken:
-	case <-time.After(5 * time.Millisecond):
-	}
-	for i := 0; i < 50; i++ {
-		runtime.Gosched()
-	}
-	time.Sleep(time.Millisecond)
+	// Wait's own Flush (if the implementation flushes there) found the container empty; then
+	// give Wait a moment to reach waitGroup.Wait
+	c16soon(took0, 5*time.Millisecond)
+	c16settle()
 	close(gateA)
 	done := make(chan struct{})
 	go func() { wg.Wait(); close(done) }()
-	select {
-	case <-done:
-	case <-time.After(30 * time.Second):
-		c16infra("handover scenario hung")
+	if !h.await(done, true) {
+		return
 	}
-	rc.onTake = nil
-	c.finish(h, func() { h.pe.Wait() })
+	c.finish(h, h.pe.Wait)
+}
+
+// quitrace: the idle-quit decision of the background flusher racing a threshold Add (the
+// window guarded by `inflight` in shallQuit; CmdCovered / deadlock freedom in
+// spec/PeriodicalImpl.tla).  A slow Flush keeps the wait group busy, a Wait holds the barrier,
+// so the flusher's tick-triggered Flush is parked in enterExecution with more than 10 idle
+// intervals on the clock; a threshold Add now hands its batch over through `commander`; then
+// everything is released.  The flusher must not retire while that batch is in flight - if it
+// does, nobody executes the batch and the Add never returns (recorded as a `hang`).
+func (c *c16) quitrace() {
+	c.ev(kit.M{"e": "reset", "kind": "per", "max": 2, "sc": "quitrace"})
+	c.count("hist_quitrace")
+	h := c.newHist()
+	gate := make(chan struct{})
+	running := make(chan struct{})
+	took2 := make(chan struct{}, 64)
+	took0 := make(chan struct{}, 64)
+	rc := &c16container{c: c, h: h, thr: 2, r: rand.New(rand.NewSource(1))}
+	rc.onTake = func(b []int) {
+		ch := took0
+		if len(b) == 2 {
+			ch = took2
+		}
+		select {
+		case ch <- struct{}{}:
+		default:
+		}
+	}
+	rc.onExec = func(b []int) {
+		if b[0] == 1 {
+			close(running)
+			<-gate
+		}
+	}
+	h.pe = NewPeriodicalExecutor(c16Interval, rc)
+	h.pe.newTicker = h.newTicker
+	add := func(p, id int) {
+		h.call(p, "add", id, 1, func() { h.pe.Add(c16task{p: p, id: id, size: 1}) })
+	}
+	if !h.step(func() { add(1, 1) }) { // starts the flusher; the container holds [1]
+		return
+	}
+	kit.WaitFor(5*time.Second, func() bool { return h.live() != nil })
+	var wg sync.WaitGroup
+	wg.Add(3)
+	go func() { // caller 2: slow Flush of [1]
+		defer wg.Done()
+		h.call(2, "flush", 0, 0, func() { h.pe.Flush() })
+	}()
+	c16soon(running, 5*time.Second)
+	go func() { // caller 3: Wait parks in waitGroup.Wait holding the barrier
+		defer wg.Done()
+		h.call(3, "wait", 0, 0, h.pe.Wait)
+	}()
+	c16soon(took0, 5*time.Millisecond)
+	c16settle()
+	h.jump() // more than 10 idle intervals since the flusher's `last`
+	h.tick() // the flusher enters its tick branch: Flush -> enterExecution waits for the barrier
+	c16settle()
+	go func() { // caller 4: the second Add reaches the threshold and hands [2 3] over
+		defer wg.Done()
+		add(4, 2)
+		add(4, 3)
+	}()
+	c16soon(took2, 2*time.Second)
+	c16settle()
+	close(gate)
+	done := make(chan struct{})
+	go func() { wg.Wait(); close(done) }()
+	if !h.await(done, true) {
+		return
+	}
+	c.finish(h, h.pe.Wait)
 }
 
 // ---------------------------------------------------------------- kinds "bulk" / "chunk": public API
@@ -483,6 +689,7 @@ func (c *c16) public(kind string) {
 			time.Sleep(50 * time.Microsecond)
 		}
 		c.ev(kit.M{"e": "xe", "b": b})
+		h.noteExec(b)
 	}
 	iv := c16Interval
 	if !h.hand {
@@ -512,6 +719,7 @@ func (c *c16) public(kind string) {
 					return
 				default:
 				}
+				h.pace()
 				if r.Intn(3) == 0 {
 					h.jump()
 				}
@@ -519,31 +727,24 @@ func (c *c16) public(kind string) {
 			}
 		}
 	}
-	h.run(g, func(p int, r *rand.Rand) {
+	ok := h.run(g, func(p int, r *rand.Rand) {
 		for i := 0; i < nops; i++ {
 			c16jitter(r)
 			switch k := r.Intn(20); {
 			case k < 14:
 				id := int(h.ids.Add(1))
-				s := sizes[r.Intn(len(sizes))]
-				c.ev(kit.M{"e": "ainv", "p": p, "t": id, "s": s})
-				api.add(id, s)
-				c.ev(kit.M{"e": "aret", "p": p})
-				c.count("adds")
+				sz := sizes[r.Intn(len(sizes))]
+				h.call(p, "add", id, sz, func() { api.add(id, sz) })
 			case k < 17:
-				c.ev(kit.M{"e": "winv", "p": p})
-				api.wait()
-				c.ev(kit.M{"e": "wret", "p": p})
-				c.count("waits")
+				h.call(p, "wait", 0, 0, api.wait)
 			default:
-				c.ev(kit.M{"e": "finv", "p": p})
-				api.flush()
-				c.ev(kit.M{"e": "fret", "p": p})
-				c.count("flushes")
+				h.call(p, "flush", 0, 0, api.flush)
 			}
 		}
 	}, env)
-	c.finish(h, api.wait)
+	if ok {
+		c.finish(h, api.wait)
+	}
 }
 
 // ---------------------------------------------------------------- entry point
@@ -554,8 +755,9 @@ func TestVerifC16Trace(t *testing.T) {
 	if err != nil {
 		t.Fatal(err)
 	}
-	c := &c16{tr: tr, clock: kit.NewClock(), cnt: map[string]*atomic.Int64{},
-		rng: rand.New(rand.NewSource(kit.Seed()*7919 + int64(kit.EnvInt("VERIF_SHARD", 0))))}
+	c := &c16{tr: tr, clock: kit.NewClock(), cnt: map[string]*atomic.Int64{}, path: out,
+		grace: time.Duration(kit.EnvInt("VERIF_C16_GRACE_MS", 30000)) * time.Millisecond,
+		rng:   rand.New(rand.NewSource(kit.Seed()*7919 + int64(kit.EnvInt("VERIF_SHARD", 0))))}
 	for _, k := range c16Counters {
 		c.cnt[k] = &atomic.Int64{}
 	}
@@ -572,9 +774,9 @@ func TestVerifC16Trace(t *testing.T) {
 		every int
 		fn    func()
 	}{
+		{"handover", 10, c.handover}, {"quitrace", 10, c.quitrace},
 		{"per", 1, c.periodical}, {"per", 1, c.periodical},
 		{"bulk", 1, func() { c.public("bulk") }}, {"chunk", 1, func() { c.public("chunk") }},
-		{"handover", 10, c.handover},
 	}
 	for i := 0; i < rounds; i++ {
 		for _, s := range scen {
@@ -585,6 +787,12 @@ func TestVerifC16Trace(t *testing.T) {
 				continue
 			}
 			s.fn()
+			if c.hung {
+				break // the stuck goroutines cannot be joined: stop recording, validate what was recorded
+			}
+		}
+		if c.hung {
+			break
 		}
 	}
 	if err := tr.Close(); err != nil {
